@@ -329,9 +329,24 @@ def readDdd {Z : Type} (P : Provider Z) (uname : Str) (ln : Line) : CRes (Item Z
 /-- ... on RDATE / EXDATE -/
 def readList {Z : Type} (P : Provider Z) (uname : Str) (ln : Line) : CRes (List (Item Z)) :=
   listFromZ P (readZone P uname ln) ln.text
-/-- ... on FREEBUSY: split on `,`, each part through `vPeriod.from_ical` -/
+/-- the checks of `vPeriod.__init__` that need no clock: a date-time start with a date-time end of the same
+    awareness (naive with aware is a TypeError, turned into ValueError) or with a non-negative duration; a
+    date start with a date end or a non-negative whole number of days is accepted too.  The comparison
+    `start > end` of two date-times is NOT modelled (it needs the offsets, and zoneinfo compares the wall
+    clocks of values that share a tzinfo object); the driver answers `unmodelled` where it could matter. -/
+def periodKindOk {Z : Type} : Item Z → Bool
+  | .period (.dt a) (.dt b) => a.zone.isSome == b.zone.isSome
+  | .period (.dt _) (.dur s) => decide (0 ≤ s)
+  | .period (.date _) (.date _) => true
+  | .period (.date _) (.dur s) => decide (0 ≤ s)
+  | _ => false
+
+/-- ... on FREEBUSY: split on `,`, each part through `vPeriod.from_ical`, then `vPeriod(...)` again -/
 def readFreebusy {Z : Type} (P : Provider Z) (ln : Line) : CRes (List (Item Z)) :=
-  mapE (periodFromZ P (readZone P sFREEBUSY ln)) (splitOnChar ',' ln.text)
+  mapE (fun t =>
+    match periodFromZ P (readZone P sFREEBUSY ln) t with
+    | .ok it => if periodKindOk it then .ok it else .error .valueError
+    | .error e => .error e) (splitOnChar ',' ln.text)
 
 /-! ## properties the RFC wants in UTC -/
 
